@@ -44,6 +44,8 @@ OPS = {"lt": ("lt",), "le": ("lt", "eq"), "gt": ("gt",), "ge": ("gt", "eq"), "eq
 PORD = "core::cmp::PartialOrd::"
 F64_PCMP = "core::cmp::impls::<impl core::cmp::PartialOrd for f64>::partial_cmp"
 
+RANGE_CONTAINS = "core::ops::RangeInclusive::<Idx>::contains"
+RANGE_NEW = "core::ops::RangeInclusive::<Idx>::new"
 IS_NAN = "core::f64::<impl f64>::is_nan"
 OPT_EQ = "<core::option::Option<T> as core::cmp::PartialEq>::eq"
 
@@ -196,6 +198,17 @@ def eval_bool(c, env):
                 kind = "PartialOrd<" + targs
                 r = get_rel(env, c[2], c[3], kind, REL4)
                 return r in OPS[meth]
+        if n.startswith(RANGE_CONTAINS) and len(c) == 4 and tag(c[2]) == "call" and c[2][1].startswith(RANGE_NEW) and len(c[2]) == 4:
+            # (lo..=hi).contains(&x)  is  lo <= x && x <= hi  with the PartialOrd impls of the two types
+            m = re.match(r"^.*contains<(.*),(.*)>$", n)
+            if m:
+                idx, u = m.group(1), m.group(2)
+                lo, hi, x = c[2][2], c[2][3], c[3]
+                r1 = get_rel(env, lo, x, "PartialOrd<%s,%s>" % (idx, u), REL4)
+                if r1 not in ("lt", "eq"):
+                    return False
+                r2 = get_rel(env, x, hi, "PartialOrd<%s,%s>" % (u, idx), REL4)
+                return r2 in ("lt", "eq")
         if n.startswith(OPT_EQ) and len(c) == 4:
             for x, y in ((c[2], c[3]), (c[3], c[2])):
                 oc = ordering_const(y)
@@ -364,6 +377,8 @@ def equivalent(t1, t2, leaf_eq=default_leaf_eq, budget=200000, assume=None):
                 if r is not None:
                     return r
             return None
+        if l1 == ("unreachable",) or l2 == ("unreachable",):
+            return None     # rustc proved the arm unreachable (exhaustive match): no such assignment exists
         if not leaf_eq(l1, l2):
             return Mismatch(env, l1, l2)
         return None
